@@ -26,24 +26,31 @@ InputKinds == {"plain", "view", "noncontig", "grad"}
 \* operations that run the transform in the data -> noise direction
 ForwardLike == {"forward", "log_prob", "transform_to_noise"}
 
-VARIABLES kind, mode, anInit, seen, res
-vars == <<kind, mode, anInit, seen, res>>
+VARIABLES kind, mode, anInit, seen, frozen, res
+vars == <<kind, mode, anInit, seen, frozen, res>>
 
 Init ==
   /\ kind \in Kinds
   /\ mode = "train"                \* nn.Module default
   /\ anInit \in (IF kind.an THEN BOOLEAN ELSE {TRUE})   \* sessions may start before or after the data-dependent init
   /\ seen = {}
+  /\ frozen = FALSE
   /\ res = [a |-> "init"]
 
-Train == /\ mode' = "train" /\ seen' = {} /\ res' = [a |-> "Train"] /\ UNCHANGED <<kind, anInit>>
-Eval == /\ mode' = "eval" /\ seen' = {} /\ res' = [a |-> "Eval"] /\ UNCHANGED <<kind, anInit>>
+\* nn.Module.train(mode) is recursive: it also ends a freeze
+Train == /\ mode' = "train" /\ seen' = {} /\ frozen' = FALSE /\ res' = [a |-> "Train"] /\ UNCHANGED <<kind, anInit>>
+Eval == /\ mode' = "eval" /\ seen' = {} /\ frozen' = FALSE /\ res' = [a |-> "Eval"] /\ UNCHANGED <<kind, anInit>>
+\* fine-tuning practice: the batch-norm style sub-modules are put in evaluation mode (their running
+\* statistics are frozen) while the model as a whole stays in training mode
+Freeze == /\ kind.bn /\ mode = "train"
+          /\ frozen' = TRUE /\ seen' = {} /\ res' = [a |-> "Freeze"] /\ UNCHANGED <<kind, mode, anInit>>
 
 \* state-dict categories a call may write in the current state.  Running statistics of batch-norm
 \* style layers (also those inside conditioner networks, which every operation runs) may move in
 \* training mode; the data-dependent initialisation only on a data -> noise pass.
+\* The mode flag of a (sub-)module ("mode_flag") is state too: no call may change it.
 AllowedWrites(op) ==
-  (IF mode = "train" /\ kind.bn THEN {"bn_running"} ELSE {})
+  (IF mode = "train" /\ kind.bn /\ ~frozen THEN {"bn_running"} ELSE {})
   \cup
   (IF mode = "train" /\ kind.an /\ ~anInit /\ op \in ForwardLike THEN {"an_init"} ELSE {})
 
@@ -56,23 +63,23 @@ Call(op, ik) ==
        /\ res' = [a |-> "Call", op |-> op, ik |-> ik, mayWrite |-> w, mustRepeat |-> MustRepeat(op)]
        /\ anInit' = (anInit \/ "an_init" \in w)
        /\ seen' = IF w = {} THEN seen \cup {op} ELSE {}
-  /\ UNCHANGED <<kind, mode>>
+  /\ UNCHANGED <<kind, mode, frozen>>
 
 \* optimiser step: writes parameters, only meaningful in training mode
 TrainStep ==
   /\ mode = "train"
   /\ seen' = {} /\ res' = [a |-> "TrainStep"]
-  /\ UNCHANGED <<kind, mode, anInit>>
+  /\ UNCHANGED <<kind, mode, anInit, frozen>>
 
 \* state dict saved and loaded into a freshly constructed model of the same configuration
 \* built under a different random seed; the fresh model starts in training mode
 SaveLoadFresh ==
-  /\ mode' = "train" /\ seen' = {}
+  /\ mode' = "train" /\ seen' = {} /\ frozen' = FALSE
   /\ res' = [a |-> "SaveLoadFresh", mustBeSameFunction |-> TRUE]
   /\ UNCHANGED <<kind, anInit>>
 
 Next ==
-  \/ Train \/ Eval \/ TrainStep \/ SaveLoadFresh
+  \/ Train \/ Eval \/ Freeze \/ TrainStep \/ SaveLoadFresh
   \/ \E op \in {"forward", "inverse", "log_prob", "sample", "sample_and_log_prob", "transform_to_noise"},
         ik \in InputKinds : Call(op, ik)
 
@@ -81,11 +88,15 @@ Spec == Init /\ [][Next]_vars
 -----------------------------------------------------------------------------
 TypeOK ==
   /\ kind \in Kinds /\ mode \in {"train", "eval"} /\ anInit \in BOOLEAN /\ seen \subseteq kind.ops
+  /\ frozen \in BOOLEAN /\ (frozen => mode = "train" /\ kind.bn)
 
 \* C13: evaluation mode never writes; training mode writes only the documented statistics
 EvalIsPure == [][(res'.a = "Call" /\ mode = "eval") => res'.mayWrite = {}]_vars
 OnlyDocumentedWriters ==
   [][res'.a = "Call" => res'.mayWrite \subseteq {"bn_running", "an_init"}]_vars
+\* frozen statistics stay frozen; no call flips a mode flag
+FrozenIsPure == [][(res'.a = "Call" /\ frozen) => "bn_running" \notin res'.mayWrite]_vars
+ModesArePreserved == [][res'.a = "Call" => "mode_flag" \notin res'.mayWrite]_vars
 InverseNeverInitialises ==
   [][(res'.a = "Call" /\ res'.op \in {"inverse", "sample", "sample_and_log_prob"}) => "an_init" \notin res'.mayWrite]_vars
 \* data-dependent initialisation is permitted at most once per session (C14 link)
@@ -93,5 +104,5 @@ InitOnce == [][(res'.a = "Call" /\ "an_init" \in res'.mayWrite) => (~anInit /\ a
 \* C15: the initialisation flag survives a reload
 ReloadKeepsInit == [][res'.a = "SaveLoadFresh" => anInit' = anInit]_vars
 
-View == <<kind, mode, anInit, seen>>
+View == <<kind, mode, anInit, seen, frozen>>
 =============================================================================
